@@ -250,6 +250,9 @@ def mixed_check(name, case, rec):
         o = um.gradient([F_.copy(), p_.copy(), J_.copy(), sv.copy()])
         return [np.array(a, dtype=float).copy() for a in o[:3]]
 
+    # (the wrapper was last asked for the stress of ANOTHER state: nothing of that evaluation may enter the tangent of this one)
+    I_ = np.eye(3).reshape(3, 3, 1, 1)
+    um.gradient([I_ + 0.5 * (F - I_), 0.5 * p, 1 + 0.5 * (Jb - 1), sv.copy()])
     H = um.hessian([F.copy(), p.copy(), Jb.copy(), sv.copy()])
     H = [None if a is None else np.array(a, dtype=float).copy() for a in H]
     Auu, Aup, AuJ, App, ApJ, AJJ = H
